@@ -72,7 +72,12 @@ def unmapPt (s : Sc) (y : Rat) : I :=
     let e := I.add (I.scale y (I.sub lmx lmn)) lmn
     let mag := ratAbs y * (ratAbs lmx.hi + ratAbs lmx.lo + ratAbs lmn.hi + ratAbs lmn.lo) + ratAbs lmn.hi + ratAbs lmn.lo + 1
     let e := widen e (32 * eps * mag)
-    let x := I.exp e
+    -- beyond e^720 > 2^1038 the value has left the float64 range: any marker above maxFloat stands for
+    -- "overflows" (the exponential of a huge exponent is not computed)
+    let x : I :=
+      if e.lo > 720 then ⟨pow2 1030, pow2 1040⟩
+      else if e.hi > 720 then ⟨(I.exp ⟨e.lo, e.lo⟩).lo, pow2 1040⟩
+      else I.exp e
     let x := ⟨x.lo * (1 - 8 * eps), x.hi * (1 + 8 * eps)⟩
     if neg then I.neg x else x
 
